@@ -184,3 +184,50 @@ Proof.
   - unfold emb_rec. cbn [cs_user]. destruct (Sess.r_user r) as [[u v]|]; [|exact I].
     cbn [option_map emb_user u_id fst emb_uid jstable]. apply dec_ascii.
 Qed.
+
+(* decode_encode is decode_encode_with for the loader of Sess.codec *)
+Lemma decode_encode_with_bridge (c : Sess.cfg) (s : csess) :
+  decode_encode_with bridge_load c s = decode_encode c s.
+Proof. reflexivity. Qed.
+
+(* the premise of the JSON theorems is the closed boolean of C17 *)
+Lemma da_null_ok_now_eq : da_null_ok_now = json_da_null_ok.
+Proof. reflexivity. Qed.
+
+(* Integer user IDs (the kind C16 names) are outside the bridge. Witness, down
+   to the byte string: the session of ex_rec logged in as the user whose ID is
+   the Go int 7. Behind gob LoadUser is handed DInt 7 - a loader that knows
+   exactly that ID finds the user. Behind JSON LoadUser is handed the float64
+   7.0: the same loader fails and the record cannot be decoded; a loader that
+   accepts anything attaches a user whose ID is the float, not the int. Under
+   neither codec is the result a record of the session model. *)
+Lemma bridge_json_int_user_refuted :
+  json_dom ex_int_user_sess = true /\ sess_num_wf ex_int_user_sess = true /\
+  (exists g, decode_encode_with int7_load (ex_cfg false) ex_int_user_sess = Ok g /\
+             cs_user g = Some (mkUser (DInt 7) 0)) /\
+  decode_encode_with int7_load (ex_cfg true) ex_int_user_sess = Err /\
+  (exists j, decode_encode_with echo_load (ex_cfg true) ex_int_user_sess = Ok j /\
+             cs_user j = Some (mkUser (DFloat (f64_of_Z 7)) 0) /\
+             DFloat (f64_of_Z 7) <> DInt 7 /\ proj_rec j = None).
+Proof.
+  split; [vm_compute; reflexivity|]. split; [vm_compute; reflexivity|]. split.
+  - eexists. split; vm_compute; reflexivity.
+  - split; [vm_compute; reflexivity|].
+    eexists. split; [vm_compute; reflexivity|]. split; [vm_compute; reflexivity|].
+    split; [discriminate | vm_compute; reflexivity].
+Qed.
+
+(* The same in general, for every library satisfying C17's hypotheses: under
+   JSON LoadUser is called with float64(z), never with the int z - a loader
+   that does not know the float makes the decoder fail. *)
+Lemma json_int_user_reaches_loader_as_float load fmt_time parse_time jstr (s : csess) (z : Z) (tag : N) :
+  json_da_null_ok = true -> json_lib_ok fmt_time parse_time jstr -> json_dom s = true ->
+  cs_user s = Some (mkUser (DInt z) tag) ->
+  load (DFloat (f64_of_Z z)) = None ->
+  json_roundtrip load fmt_time parse_time jstr json_enc json_dec s = Err.
+Proof.
+  intros Hok Hlib Hd Hu Hl.
+  rewrite (json_roundtrip_thm Hok load _ _ _ Hlib s Hd).
+  unfold jnorm. destruct (reparse_map jstr (data_or_empty (cs_data s))); [|reflexivity].
+  rewrite Hu. cbn [u_id reparse]. rewrite Hl. reflexivity.
+Qed.
